@@ -9,6 +9,22 @@ snaxc/ir/tsl through vlib/gen_tsl.py), never `get_affine_map` or any other code 
              byte that was at base_src + addr_src(idx)*elsize + j;
   footprint: every byte read is a byte of some source element, every byte written is a byte of some destination element
              (so destination bytes outside the footprint are unchanged).
+
+Preconditions of the pass, as read from snaxc/transforms/snax_copy_to_dma.py (the generator stays inside them):
+  * MatchSimpleCopy: both memrefs without layout -> one 1-D transfer of prod(dims) * element size (dims through memref.dim).
+  * TransformDMA: both operands memrefs of equal shape and equal *integer* element type, otherwise the copy is left alone.
+    A non-tsl side is turned into a TSL with TiledStridedLayout.from_strides: strides from strided<> (`?` -> dynamic) or row-major
+    (dynamic as soon as a dimension to the right is `?`), offset from strided<> (0 without layout), tile bounds from the tsl side or,
+    if there is none, one tile per dimension. Any other layout attribute: NotImplementedError.
+  * both TSLs are assumed to have equal tile bounds ("constraint" in the code, never checked) -> unequal bounds are outside.
+  * dynamic offset only for strided<> ("dynamic offsets for tsl is TODO", assert) -> tsl offsets are static here.
+  * dynamic sizes: outermost bound = memref.dim / product of inner bounds (divui: the size must be a multiple); dynamic steps of a
+    strided<> memref come from extract_strided_metadata, all other dynamic steps follow the TSL contiguity rule (largest static step
+    x its bound, then right to left, innermost to outermost).
+  * "if my reasoning is correct, if there are remaining strides, then the lcb cannot be dynamic": two bare asserts. They do fire
+    (copy between two views with a dynamic innermost dimension and a static/unequal outer stride); a crash is not a statement about
+    moved bytes, so it is counted as a rejection `crash:AssertionError:...` and reported, not raised.
+  * test-ignore-transform=true is documented to produce wrong data and is not exercised.
 """
 from __future__ import annotations
 
@@ -30,7 +46,7 @@ RULE = (
     "bounds (gaps, padding, static offset, `?` steps only on outermost tiles as the TSL README allows). Layouts are constructed one-to-one by "
     "nesting the (dim, depth) positions in a drawn order; the destination's order is the source's / shares a prefix / is independent, so "
     "whole, partial and single-element common contiguous blocks and equal steps at different positions are frequent; unit bounds carry "
-    "arbitrary steps; 1 in 12 static cases makes the source overlap itself (repeated step). Plus every rank-2, depth<=2, bounds<=3 tsl pair of "
+    "arbitrary steps; 1 in 10 static cases with a laid-out source makes the source overlap itself (a step repeated at another position, a legal source). Plus every rank-2, depth<=2, bounds<=3 tsl pair of "
     "the constructed family (source gap-free, destination with at most one factor-2 gap), a slice of it in quick. The real pass snax-copy-to-dma is applied and the "
     "result executed on a token byte memory with the snax_rt.h DMA semantics; content and footprint are compared with the layout "
     "definition. Non-trivial: more than one element and the two layouts differ as address functions (relative to their offsets); distinct by recipe hash."
@@ -101,8 +117,8 @@ def prop(r):
     if len(np.unique(dst_el)) != n:
         raise Outside("destination layout is not one-to-one")
     src_overlaps = len(np.unique(src_el)) != n
-    if src_overlaps and r.get("fam") != "src-overlap":
-        raise Outside("source layout overlaps itself outside the src-overlap family")
+    if src_overlaps and _features(r):
+        raise Outside("dynamic source layout overlaps itself at this run-time size")
 
     base_src = 0x1000 + 8 * r["bs"]
     src_end = base_src + (int(src_el.max()) + 1) * elsize
@@ -316,9 +332,9 @@ def signature(r, kinds, form, src_overlaps):
 
 
 SUBS = [
-    Sub("copy", lambda tier: G5.case(tier), prop, budget=dict(quick=2500, thorough=60000), floor=dict(quick=300, thorough=6000),
+    Sub("copy", lambda tier: G5.case(tier), prop, budget=dict(quick=2500, thorough=60000), floor=dict(quick=250, thorough=5000),
         nontrivial_rule="more than one element and source/destination layouts differ as address functions"),
     Sub("tsl_pairs_exhaustive", lambda tier: G5.case(tier), prop, budget=dict(quick=0, thorough=0), exhaustive=G5.exhaustive_recipes,
-        exhaustive_only=True, floor=dict(quick=500, thorough=15000),
+        exhaustive_only=True, floor=dict(quick=750, thorough=35000),
         nontrivial_rule="more than one element and source/destination layouts differ as address functions"),
 ]
